@@ -23,8 +23,17 @@ if os.environ.get("SP_VH"):          # a harness binary built against a mutated 
     vlib.VH["debug"] = os.environ["SP_VH"]
 
 
+class _Known:
+    """class names with an entry in known_findings.json, per property: a V failure is judged by C12, the others by C11"""
+    def __init__(self):
+        self.k = {p: {e["class"] for e in vlib.load_known(p)} for p in ("C11", "C12")}
+
+    def has(self, clause, cls):
+        return cls in self.k["C12" if clause == "V" else "C11"]
+
+
 def known_classes():
-    return {e["class"] for p in ("C11", "C12") for e in vlib.load_known(p)}
+    return _Known()
 
 
 def summarize(cases, res, label, shrink_n=8):
@@ -40,7 +49,7 @@ def summarize(cases, res, label, shrink_n=8):
         if r["fails"]:
             nfail_docs += 1
         for cl, p, k in r["fails"]:
-            if k != "-" and k in known:
+            if k != "-" and known.has(cl, k):
                 fails_in[k] = fails_in.get(k, 0) + 1
                 seen.add(k)
             else:
@@ -74,7 +83,7 @@ def summarize(cases, res, label, shrink_n=8):
             if rr["fails"] is None:
                 return False
             for c2, p2, k2 in rr["fails"]:
-                if c2 == cl and (k2 == "-" or k2 not in known):
+                if c2 == cl and (k2 == "-" or not known.has(c2, k2)):
                     d2 = F.fail_desc(rr["tree_toks"], c2, p2)
                     if (c2, d2.get("parent", ""), d2["kind"]) == key:
                         return True
@@ -112,7 +121,7 @@ def cmd_mut(tier, seed):
     per = {"C11": [], "C12": []}
     for (o, s, origin), r in zip(cases, res):
         for cl, p, k in r["fails"] or []:
-            if k == "-" or k not in known:
+            if k == "-" or not known.has(cl, k):
                 per["C12" if cl == "V" else "C11"].append((len(s), s, docgen.opts_token(o), cl, F.fail_desc(r["tree_toks"], cl, p)))
     for prop in ("C11", "C12"):
         l = sorted(per[prop], key=lambda x: x[0])
